@@ -58,5 +58,8 @@ func (t *Throttle) Done() {
 	cb := t.queue[0]
 	t.queue = t.queue[1:]
 	t.mu.Unlock()
+	if verifGo(cb) {
+		return
+	}
 	go cb()
 }
